@@ -108,6 +108,24 @@ func mwNoise(g *Rng, c *mwDeployConf) {
 	}
 }
 
+// mwYield, when set, is a decision point of a two-request schedule (see the C16 profile's "pair" step): it is called when a
+// request reaches the application handler and around every session-token decode.
+var mwYield func(label string)
+
+// yieldCodec wraps a deployment's session codec: decoding a token is where a request spends its time.
+type yieldCodec struct{ samlsp.SessionCodec }
+
+func (c yieldCodec) Decode(signed string) (samlsp.Session, error) {
+	if mwYield != nil {
+		mwYield("decode:before")
+	}
+	s, err := c.SessionCodec.Decode(signed)
+	if mwYield != nil {
+		mwYield("decode:after")
+	}
+	return s, err
+}
+
 type appHit struct {
 	URL     string
 	Subject string
@@ -184,6 +202,9 @@ func newMWDeploy(c mwDeployConf, idpMD *saml.EntityDescriptor, gateAttr, gateVal
 	d.mw = m
 	record := func(dst *[]appHit) http.Handler {
 		return http.HandlerFunc(func(w http.ResponseWriter, r *http.Request) {
+			if mwYield != nil {
+				mwYield("app")
+			}
 			h := appHit{URL: r.URL.String()}
 			if s := samlsp.SessionFromContext(r.Context()); s != nil {
 				if c, ok := s.(samlsp.JWTSessionClaims); ok {
